@@ -28,6 +28,7 @@ type Obligation struct {
 	Refine   []*Term
 	Small    []*Term // "prefer a small counterexample" constraints (slice lengths within the replay window)
 	Contract *Contract
+	Order    []string // solver order override (lemmas: cvc5 first)
 }
 
 type FuncResult struct {
@@ -242,6 +243,55 @@ func (p *Program) VerifyFunc(c *Contract) (res *FuncResult) {
 	// 1. pre.sat
 	o := mk("pre.sat", allTags(), "sat", "requires satisfiable", preT)
 	o.Probe = true
+
+	// 1b. lemmas instantiated by this contract: the universal closure over the integers is proved on its own
+	// (no assumptions of the contract take part)
+	{
+		var lnames []string
+		for n, sf := range p.CS.SpecFuns {
+			if !sf.Lemma {
+				continue
+			}
+			used := false
+			for _, a := range append(append([]Clause{}, c.Assume...), c.AssumePost...) {
+				if strings.Contains(a.Src, n+"(") {
+					used = true
+				}
+			}
+			if used {
+				lnames = append(lnames, n)
+			}
+		}
+		sort.Strings(lnames)
+		for _, n := range lnames {
+			sf := p.CS.SpecFuns[n]
+			lv := map[string]Val{}
+			lt := map[string]types.Type{}
+			var syms []string
+			for _, prm := range sf.Params {
+				nm := "lm_" + n + "_" + prm
+				lv[prm] = Scalar{Sym(nm, IntSort)}
+				lt[prm] = types.Typ[types.UntypedInt]
+				syms = append(syms, nm)
+			}
+			lenv := &SpecEnv{ex: ex, st: entry, vars: lv, vtypes: lt, pkg: fn.Pkg.Pkg, contract: c}
+			body := lenv.termBool(sf.Expr)
+			q := &Query{GetVals: syms, Logic: "ALL"}
+			var fnames []string
+			for fnn := range ex.Funs {
+				fnames = append(fnames, fnn)
+			}
+			sort.Strings(fnames)
+			for _, fnn := range fnames {
+				q.Funs = append(q.Funs, ex.Funs[fnn])
+			}
+			q.Asserts = []*Term{Not(body)}
+			lo := &Obligation{Func: c.Key, Short: "lemma." + n, Name: c.Key + "#lemma." + n, Expect: "unsat", Query: q,
+				Mode: "int", Inputs: syms, Clause: "lemma " + n + "(" + strings.Join(sf.Params, ", ") + ") = " + sf.Src, Contract: c,
+				Order: []string{"cvc5", "z3-new", "z3"}}
+			res.Obligations = append(res.Obligations, lo)
+		}
+	}
 
 	// 2. side obligations grouped by name
 	groups := map[string][]SideObl{}
